@@ -3,7 +3,7 @@
    input (lists of notes of any length, arbitrary maps, any divisions); none is a finite sample.
    The model (Model/C05.v) is tied to partitura's code by the correspondence run of
    harness/props/c05.py on every check. *)
-From PV Require Import Lib.Base Lib.Round Model.C05 Model.C05_Spec Model.C05_Ext Model.C05_Inv Model.C05_Disp Model.C05_Voice Proofs.C05_lib Proofs.C05_ties Proofs.C05 Proofs.C05_ext Proofs.C05_inv Proofs.C05_disp Proofs.C05_voice.
+From PV Require Import Lib.Base Lib.Round Model.C05 Model.C05_Spec Model.C05_Ext Model.C05_Inv Model.C05_Disp Model.C05_Voice Model.C05_Hist Proofs.C05_lib Proofs.C05_ties Proofs.C05 Proofs.C05_ext Proofs.C05_inv Proofs.C05_disp Proofs.C05_voice Proofs.C05_hist.
 From Coq Require Import QArith Sorting.Sorted Permutation.
 #[local] Open Scope Z_scope.
 
@@ -414,3 +414,61 @@ Theorem voice_minus_one_refuted :
     n_voice h = Some (-1) /\ r_voice r = 3.
 Proof. exact ex_voices_k1_values. Qed.
 Print Assumptions voice_minus_one_refuted.
+
+(* ---------------------------------------------------------------- state carried between calls (fourth round)
+   Model/C05_Hist.v: parts are objects; a Score holds two lists of references (parts / part_structure), a list and a
+   PartGroup one; operations: edit a part in place, score[i] = part, members[i] = part, append, score = unfold_part_*(score). *)
+
+(* after ANY history the array read from a Score is the array of the parts it holds NOW, each with what it holds now;
+   "now" is stated on the history read from its end (the last write to a position / to an object wins) *)
+Theorem score_history_current : forall s ops uniq,
+  read uniq (run s ops) VScore
+    = ensure_notearray_m uniq (InMany CScore (map (content_rev (s_store s) (rev ops)) (s_parts (run s ops))))
+  /\ forall i, nth_error (s_parts (run s ops)) i = part_at_rev (s_parts s) (rev ops) i.
+Proof. exact score_history_current_lemma. Qed.
+Print Assumptions score_history_current.
+
+(* ... equivalently: it is what a Score freshly built from the current parts gives (part_structure and the past do not matter) *)
+Theorem read_equals_fresh_copy : forall s ops uniq,
+  read uniq (run s ops) VScore
+    = read uniq (init_score (s_store (run s ops)) (map RLeaf (s_parts (run s ops)))) VScore.
+Proof. exact read_equals_fresh_copy_lemma. Qed.
+Print Assumptions read_equals_fresh_copy.
+
+(* two histories (two scores) that end in the same parts holding the same give the same array *)
+Theorem read_depends_on_current_only : forall s1 ops1 s2 ops2 uniq,
+  s_parts (run s1 ops1) = s_parts (run s2 ops2) ->
+  (forall o, In o (s_parts (run s1 ops1)) -> content (s_store (run s1 ops1)) o = content (s_store (run s2 ops2)) o) ->
+  read uniq (run s1 ops1) VScore = read uniq (run s2 ops2) VScore.
+Proof. exact read_depends_on_current_only_lemma. Qed.
+Print Assumptions read_depends_on_current_only.
+
+(* a Score, a list and a PartGroup given the same parts give the same array *)
+Theorem views_agree : forall s uniq,
+  Forall is_leaf (map (content (s_store s)) (s_parts s)) ->
+  read uniq s VScore = read uniq s (VParts CList) /\ read uniq s (VParts CList) = read uniq s (VParts CGroup).
+Proof. exact views_agree_lemma. Qed.
+Print Assumptions views_agree.
+
+(* the statement is not vacuous: a Score.note_array that reads part_structure differs after score[0] = part ... *)
+Theorem stale_structure_refuted : exists s ops uniq, read_struct uniq (run s ops) <> read uniq (run s ops) VScore.
+Proof. exact stale_structure_refuted_lemma. Qed.
+Print Assumptions stale_structure_refuted.
+
+(* ... and a result kept on the object differs after a part was edited in place *)
+Theorem memo_refuted : exists s x uniq v,
+  let c1 := snd (read_memo uniq None s v) in
+  fst (read_memo uniq c1 (step s x) v) <> read uniq (step s x) v.
+Proof. exact memo_refuted_lemma. Qed.
+Print Assumptions memo_refuted.
+
+(* a history with an edit in place, an item assignment and an unfolding: parts [3; 2], part_structure still [0]; [1] *)
+Theorem history_example :
+  let ops := [OPut 0 hA'; OPut 2 hZ; OSetPart 1 2; OPut 3 hB; OUnfold [3; 2]; OPut 3 hA] in
+  s_parts (run h0 ops) = [3; 2] /\
+  content (s_store (run h0 ops)) 3 = hA /\
+  keys (read false (run h0 ops) VScore)
+    = Some [("a0", 0, 60); ("z0", 0, 81); ("a1", 2, 62); ("z1", 2, 83); ("z2", 4, 84)]%string /\
+  map rleaves (s_struct (run h0 ops)) = [[0]; [1]].
+Proof. exact history_example_values. Qed.
+Print Assumptions history_example.
